@@ -148,22 +148,24 @@ Theorem C14_converges_toposort :
 Proof. intros sort H m. apply topo_converges. exact H. Qed.
 Print Assumptions C14_converges_toposort.
 
-(* Add/RemoveInitializers(To/From)InputsPass *)
+(* AddInitializersToInputsPass (main graph only since fix d64e021; subgraphs untouched) and
+   RemoveInitializersFromInputsPass (every graph) *)
 Theorem C14_flag_sound_inits_inputs :
-  forall m, (snd (io_pass add_inits m) = false -> fst (io_pass add_inits m) = m)
-            /\ (snd (io_pass rm_inits m) = false -> fst (io_pass rm_inits m) = m).
-Proof. intros m. split; apply io_flag_sound; [exact add_inits_sound | exact rm_inits_sound]. Qed.
+  forall m, (snd (add_pass m) = false -> fst (add_pass m) = m)
+            /\ (snd (rm_pass m) = false -> fst (rm_pass m) = m)
+            /\ tl (fst (add_pass m)) = tl m.
+Proof.
+  intros m. split; [apply add_pass_flag_sound|]. split; [apply io_flag_sound; exact rm_inits_sound | apply add_pass_tail].
+Qed.
 Print Assumptions C14_flag_sound_inits_inputs.
 
 Theorem C14_converges_inits_inputs :
   forall m,
-  (snd (io_pass add_inits (fst (io_pass add_inits m))) = false
-   /\ fst (io_pass add_inits (fst (io_pass add_inits m))) = fst (io_pass add_inits m))
-  /\ (snd (io_pass rm_inits (fst (io_pass rm_inits m))) = false
-      /\ fst (io_pass rm_inits (fst (io_pass rm_inits m))) = fst (io_pass rm_inits m)).
+  (snd (add_pass (fst (add_pass m))) = false /\ fst (add_pass (fst (add_pass m))) = fst (add_pass m))
+  /\ (snd (rm_pass (fst (rm_pass m))) = false /\ fst (rm_pass (fst (rm_pass m))) = fst (rm_pass m)).
 Proof.
-  intros m. split; apply io_converges;
-    [exact add_inits_sound | exact add_inits_idem | exact rm_inits_sound | exact rm_inits_idem].
+  intros m. split; [apply add_pass_converges|].
+  apply io_converges; [exact rm_inits_sound | exact rm_inits_idem].
 Qed.
 Print Assumptions C14_converges_inits_inputs.
 
